@@ -11,6 +11,10 @@
 (*   bus = [[cycle, rw, addr, val]..] accesses the CPU made; n = cycles;    *)
 (*   raises = [[k, bit]..]: request `bit` raised by the harness after cycle *)
 (*   k of this unit (k = 0: before its first cycle).                        *)
+(*   keys = [k..]: a key event (ButtonAction + the CPU's input callback, as *)
+(*   the display does) after cycle k. A key event is not a request by       *)
+(*   itself; an implementation may turn it into a joypad request (bit 4),   *)
+(*   which the observed IF then shows.                                      *)
 EXTENDS IntCtl, SM83, TLC, Json, IOUtils
 
 Scens == ndJsonDeserialize(IOEnv.TRACE)
@@ -35,7 +39,12 @@ Bus(e) == e[3]
 Post(e) == Regs(e[4])
 N(e) == e[5]
 Raises(e) == e[8]
+Keys(e) == IF Len(e) >= 9 THEN e[9] ELSE <<>>
+KeyAt(e, k) == \E i \in 1..Len(Keys(e)) : Keys(e)[i] = k
+\* does the observed IF show a joypad request that nothing else explains?
+JoypadSeen(e) == 4 \in Bits(e[7]) /\ Len(Keys(e)) > 0
 RaisedAt(e, k) == {Raises(e)[i][2] : i \in {j \in 1..Len(Raises(e)) : Raises(e)[j][1] = k}}
+                  \cup (IF KeyAt(e, k) /\ JoypadSeen(e) THEN {4} ELSE {})
 RaisedUpTo(e, k) == UNION {RaisedAt(e, j) : j \in 0..k}
 
 \* IF and IE after a unit of n cycles: CPU writes to FF0F / FFFF (from the bus log) and raises, in cycle order
